@@ -268,9 +268,12 @@ def gen_operands(op, rng, types, pats):
         shape_types = [rng.choice(sums)] + ([rng.choice(types[1:4])] if rng.random() < 0.6 else [])
         rng.shuffle(shape_types)
     t, pool = U.gen_tensor(rng, types=shape_types, kind=k0, default=deflt(k0), nan=nan,
-                           dtype=("f32" if op.name == "nan_to_num_" and rng.random() < 0.5 else None),
+                           dtype=("f32" if op.name == "nan_to_num_" and rng.random() < 0.5 else None), universe=types,
                            **(dict(p_phys=0.15) if shape_types else {}))
-    if op.n == 1: return [t]
+    if op.n == 1:
+        # one-hot operand: no physical axis although ndim >= 1 (e.g. eye(n)[i], a single stored cell)
+        if rng.random() < 0.08: t = U.onehot_like(t, rng, keep=0.3)
+        return [t]
     # broadcast-compatible second operand
     bases = iter([40, 80, 120])
     def partner(base, kind2, dtype, pool):
@@ -281,21 +284,31 @@ def gen_operands(op, rng, types, pats):
         ts2 = [(("prod", []) if rng.random() < 0.15 else x) for x in ts2]
         if math.prod(U.tsize(x) for x in ts2) > 64: ts2 = ts[:]
         share = rng.random() < 0.3
-        u, pl = U.gen_tensor(rng, types=ts2, kind=kind2, default=deflt(kind2), dtype=dtype,
+        u, pl = U.gen_tensor(rng, types=ts2, kind=kind2, default=deflt(kind2), dtype=dtype, universe=types,
                              pool=(pool if share else U.Pool(next(bases))), nan=nan,
                              **(dict(p_phys=0.15) if shape_types else {}))
         return u, (pl if share else pool)
+    def onehot(specs):
+        # one-hot operands in every position (C08-d): patterns WITHOUT physical axes but with a non-unit virtual
+        # shape -- one-hot vectors, single-cell matrices, eye(n)[i] -- or one-hot dimensions next to a physical one
+        if rng.random() < 0.22:
+            j = rng.randrange(len(specs))
+            specs[j] = U.onehot_like(specs[j], rng, keep=0.25)
+            if rng.random() < 0.25:
+                j2 = rng.randrange(len(specs))
+                specs[j2] = U.onehot_like(specs[j2], rng, keep=0.25)
+        return specs
     if kind == "where":
         c, pool = partner(t, "bool", None, pool)
         u, pool = partner(t, "float", t["dtype"], pool)
-        return [t, c, u]
+        return onehot([t, c, u])
     u, pool = partner(t, k0, t["dtype"], pool)
     if rng.random() < 0.08: u = copy.deepcopy(t)     # t op t (all axes shared)
     if op.identity is not None:
         # steer into all three code paths of commutative / sub / div: defaults equal to the identity
         if rng.random() < 0.5: t["default"] = op.identity
         if rng.random() < 0.4: u["default"] = op.identity
-    return [t, u]
+    return onehot([t, u])
 
 def spec_from_pattern(ts, vax, rng, kind, default, nan):
     paxes = U.fv_list(vax); rng.shuffle(paxes)
@@ -458,8 +471,9 @@ def wire_case(case, out):
 
 # ---------------------------------------------------------------------------- model check 2 (Model/PTensorOpsCheck.v)
 OPCODE2 = {"where": 50, "stack": 51, "any": 52, "dim_to_dense": 53, "project": 54, "reshape": 55, "reshape_star": 55,
-           "view": 56, "copy_": 57, "to": 58}
-GROUP2 = {50: "select", 51: "select", 52: "reduce", 53: "reduce", 54: "reduce", 55: "reshape", 56: "reshape", 57: "storage", 58: "storage"}
+           "view": 56, "copy_": 57, "to": 58, "iter": 59}
+GROUP2 = {50: "select", 51: "select", 52: "reduce", 53: "reduce", 54: "reduce", 55: "reshape", 56: "reshape", 57: "storage", 58: "storage",
+          59: "reduce"}
 
 def _small(specs):
     return not any(math.prod(n for _, n in s["paxes"]) > 64 or math.prod(U.a_numel(e) for e in s["vaxes"]) > 100 for s in specs)
@@ -494,7 +508,12 @@ def wire_case2(case, out):
         inferred = tgt.index(-1) + 1 if -1 in tgt else 0
         na = [1 if args[1] else 0, inferred] + [0 if x == -1 else x for x in tgt]
     elif name == "to": na = [1 if args[0] == "bool" else 0]
-    res = wire_result(out, getattr(out, "first_res", None))
+    fr = getattr(out, "first_res", None)
+    if name == "iter" and isinstance(fr, list):
+        # the slices yielded by __iter__, stacked along a new leading dimension (the model does the same)
+        if not fr: return None
+        fr = torch.stack(fr, 0)
+    res = wire_result(out, fr)
     if res is None: return None
     if name != "to" and res[0] == 0 and getattr(out, "first_res", None) is not None:
         r = out.first_res
@@ -567,13 +586,16 @@ def special_stack(rng, mon):
     from fggs.indices import stack
     n = rng.choice([1, 2, 2, 3, 4])
     kind = rng.choice(["float", "float", "bool"])
-    first, pool = U.gen_tensor(rng, kind=kind, max_numel=24)
+    first, pool = U.gen_tensor(rng, kind=kind, max_numel=24, **(dict(types=[]) if rng.random() < 0.08 else {}))
+    onehot_inputs = rng.random() < 0.12
+    if onehot_inputs: first = U.onehot_like(first, rng, keep=0.3)
     specs = [first]
     for _ in range(n - 1):
         share = rng.random() < 0.3
         u, pl = U.gen_tensor(rng, types=first["types"], kind=kind, default=first["default"], dtype=first["dtype"],
                              pool=(pool if share else U.Pool(40 + 20 * len(specs))))
         if share: pool = pl
+        if onehot_inputs and rng.random() < 0.7: u = U.onehot_like(u, rng, keep=0.3)
         specs.append(u)
     dim = rng.randrange(len(first["types"]) + 1)
     case = dict(op="stack", args=[dim], operands=specs)
@@ -696,6 +718,7 @@ def gen_chain(rng, types):
             if math.prod(U.tsize(t) for t in ts2) > 64: continue
             u, _ = U.gen_tensor(rng, types=ts2, kind=("bool" if cur.dtype == torch.bool else "float"),
                                 dtype=("f32" if cur.dtype == torch.float32 else "f64"), pool=U.Pool(200 + 100 * len(chain)))
+            if rng.random() < 0.15: u = U.onehot_like(u, rng, keep=0.25)
             extra = [u]
         try:
             with warnings.catch_warnings():
@@ -732,13 +755,20 @@ def run_ops(tier, seed, violations, cov, mon):
             if U.tsize(t1) * U.tsize(t2) > 24: continue
             for vax, _ in U.enum_patterns([t1, t2]): pool2.append(([t1, t2], vax))
     patterns = pool1 + pool2
+    # the random streams also draw dimension types with size-1 summands (one-hot dimensions); the exhaustive
+    # pools above stay over all_types()
+    types_r = types + U.onehot_types()
     hist = {}; status_hist = {}; n_eval = 0; distinct = set(); samples = []; warn_cases = 0; ptvals = []; ptvals2 = []
+    onehot_hist = {}
     def judge(case, out):
         nonlocal n_eval, warn_cases
         n_eval += 1
         name = case["op"] + ("+" + "+".join(c[0] for c in case.get("chain", [])) if case.get("chain") else "")
         hist[case["op"]] = hist.get(case["op"], 0) + 1
         status_hist[out.status] = status_hist.get(out.status, 0) + 1
+        for j, sp in enumerate(case["operands"]):
+            if U.is_onehot(sp):
+                key = "%s/operand%d" % (case["op"], j); onehot_hist[key] = onehot_hist.get(key, 0) + 1
         if nontrivial(case): distinct.add(repr((case["op"], case["args"], [(s["vaxes"], s["paxes"]) for s in case["operands"]], [c[:2] for c in case.get("chain", [])])))
         if getattr(out, "nwarn", 0): warn_cases += 1
         try:
@@ -772,7 +802,7 @@ def run_ops(tier, seed, violations, cov, mon):
                 if case is None: continue
                 judge(case, exec_case(case, mon))
         for _ in range(per_op_rand * op.weight):
-            case = gen_case(op, rng, types)
+            case = gen_case(op, rng, types_r)
             if case is None: continue
             judge(case, exec_case(case, mon))
             if len(samples) < 4 and nontrivial(case) and (not samples or rng.random() < 0.02): samples.append(describe(case))
@@ -788,13 +818,15 @@ def run_ops(tier, seed, violations, cov, mon):
     # compositions
     n_chain = 0
     for _ in range(350 if quick else 6000):
-        case = gen_chain(rng, types)
+        case = gen_chain(rng, types_r)
         if case is None: continue
         n_chain += 1
         judge(case, exec_case(case, mon))
     # reshape must succeed on adjacent merges and size-1 insertion/removal: counted through args[1] (must flag)
     cov["tensor_level"] = dict(op_histogram=hist, outcome_histogram=status_hist, compositions=n_chain,
-                               exhaustive_pattern_pool=len(patterns), cases_with_type_mismatch_warning=warn_cases)
+                               exhaustive_pattern_pool=len(patterns), cases_with_type_mismatch_warning=warn_cases,
+                               onehot_operand_cases=dict(total=sum(onehot_hist.values()), by_op_and_position=onehot_hist,
+                                                         rule="operand without physical axes whose virtual shape is not all ones"))
     cov["samples"] = samples[:3]
     cov["_ptvals"] = ptvals
     cov["_ptvals2"] = ptvals2
